@@ -79,6 +79,14 @@ func removeTags(c *api.Context, collection b6.Collection[b6.FeatureID, string]) 
 
 // Adds a point feature with the given id, tags and members.
 func addPoint(_ *api.Context, point b6.Geometry, id b6.FeatureID, tags b6.Collection[interface{}, b6.Tag]) (ingest.Change, error) {
+	if err := requireGeometry("add-point", point); err != nil {
+		return nil, err
+	}
+	// Applying a generic feature with the ID of an area, relation or
+	// collection panics in the world, which expects the specific types.
+	if id.Type != b6.FeatureTypePoint {
+		return nil, fmt.Errorf("add-point: expected a point id, found %s", id)
+	}
 	p := &ingest.GenericFeature{
 		ID: id,
 		Tags: []b6.Tag{
